@@ -72,3 +72,97 @@ Theorem C02_pool_is_source : forall pm pl p,
   pool_add pm pl p = packetPool_addUnlocked (gen_get pm) gen_set is_psi_complete pl (Some (pm_mem pm)) p.
 Proof. exact pool_add_is_generated. Qed.
 Print Assumptions C02_pool_is_source.
+
+(* ---- NextPacket / NextData / updateData ARE the source ----
+   Gen/DemuxGen.v (Section Demuxer) is translated from the current /repo/demuxer.go on every run
+   (go/gen/demuxgen.go): NextPacket (context check, lazy creation of the packet buffer, next, which errors are
+   wrapped), NextData (buffered data first; the packet loop with its continue / return paths; on ErrNoMorePackets —
+   compared with == — the dump loop with its break / continue / return; `len(ps) == 0`; parseData; updateData) and
+   updateData (first datum returned, the rest buffered, every PAT program with number > 0 registered).  The callees
+   are abstract operations, instantiated by the model (Proofs/DemuxGenEq.v): the packet buffer by Model/Reader.v, the
+   pool by pool_add / pool_dump (= the regenerated pool functions, above), parseData by parse_data, a context that is
+   never cancelled; Go error values are related to the model's codes by code_x, for EVERY representation err_of of
+   the model's codes as error values that keeps ErrNoMorePackets recognisable (C02_errors_representable: there is
+   one).  next_packet / next_data / update_data, about which the theorems above (and C03, C07, C19, C20) speak, are
+   those regenerated functions: same value or error class, same next state, Panicked exactly when the model panics.
+   Fuel: the packet loop runs in lockstep with the model's (nd_fuel s; OutOfFuel exactly when the model's own fuel
+   runs out, which C03 shows unreachable); for the dump loop any fuel_2 > PIDs in the pool + nd_fuel s suffices. *)
+Require Import Gen.DemuxGen Proofs.DemuxGenEq Proofs.DemuxGenEqData.
+
+Theorem C02_errors_representable : forall wr,
+  (forall c, gerr_eqb (err_of_plain wr c) e_nomore = (c =? E_nomore)) /\
+  (forall c, code_x (err_of_plain wr c) = norm c).
+Proof. exact err_of_plain_ok. Qed.
+Print Assumptions C02_errors_representable.
+
+Theorem C02_update_data_is_source : forall buf opt gp gs pb pl ds w,
+  Demuxer_updateData mworld unit unit gpb pool unit unit pm_set_m tt buf tt opt gp gs pb pl tt tt ds w =
+  Done (match ds with [] => buf | _ :: rest => buf ++ rest end, hd_error ds,
+        set_pm w (fold_left pm_add (flat_map pat_pids ds) (mw_pm w))) /\
+  update_data (state_of buf (option_map fst pb) pl opt w) ds =
+  (hd_error ds, state_of (match ds with [] => buf | _ :: rest => buf ++ rest end) (option_map fst pb) pl opt
+                         (set_pm w (fold_left pm_add (flat_map pat_pids ds) (mw_pm w)))).
+Proof.
+  intros. split; [exact (update_data_is_generated buf opt gp gs pb pl ds w)|exact (update_data_state buf (option_map fst pb) pl opt w ds)].
+Qed.
+Print Assumptions C02_update_data_is_source.
+
+Theorem C02_next_packet_is_source : forall (err_of : Z -> gerr),
+  (forall c, gerr_eqb (err_of c) e_nomore = (c =? E_nomore)) -> (forall c, code_x (err_of c) = norm c) ->
+  forall prs skip s,
+  match Demuxer_NextPacket mworld unit unit gpb pool unit unit ctx_err_m (new_pb_m err_of) (pb_next_m err_of)
+          tt (d_buffer s) tt (d_opt_size s) (go_prs err_of prs) (go_sk skip) (with_sk skip (d_pb s)) (d_pool s) tt tt
+          (world_of s) with
+  | Done (pb', p, err, w') =>
+      res_rel_exact p err (fst (next_packet skip s)) /\
+      pb' = with_sk skip (d_pb (snd (next_packet skip s))) /\
+      snd (next_packet skip s) = state_of (d_buffer s) (d_pb (snd (next_packet skip s))) (d_pool s) (d_opt_size s) w'
+  | Panicked => fst (next_packet skip s) = Panic
+  | OutOfFuel => False
+  end.
+Proof. exact next_packet_is_generated. Qed.
+Print Assumptions C02_next_packet_is_source.
+
+Theorem C02_next_data_is_source : forall (err_of : Z -> gerr),
+  (forall c, gerr_eqb (err_of c) e_nomore = (c =? E_nomore)) -> (forall c, code_x (err_of c) = norm c) ->
+  forall P prs skip s f2, (length (d_pool s) + nd_fuel s < f2)%nat ->
+  match Demuxer_NextData mworld unit unit gpb pool unit unit pm_set_m ctx_err_m (new_pb_m err_of) (pb_next_m err_of)
+          pool_dump_m (parse_data_m err_of P) pool_add_m
+          tt (d_buffer s) tt (d_opt_size s) (go_prs err_of prs) (go_sk skip) (with_sk skip (d_pb s)) (d_pool s) tt tt
+          (nd_fuel s) f2 (world_of s) with
+  | Done (buf', pb', pl', d, err, w') =>
+      res_rel d err (fst (next_data P prs skip s)) /\
+      pb' = with_sk skip (d_pb (snd (next_data P prs skip s))) /\
+      snd (next_data P prs skip s) = state_of buf' (d_pb (snd (next_data P prs skip s))) pl' (d_opt_size s) w'
+  | Panicked => fst (next_data P prs skip s) = Panic
+  | OutOfFuel => fst (next_data P prs skip s) = Err E_generic
+  end.
+Proof. exact next_data_is_generated. Qed.
+Print Assumptions C02_next_data_is_source.
+
+(* ---- parseData IS the source ----
+   Gen/DemuxGen.v (Section ParseData) is translated from the current /repo/data.go on every run: the custom
+   PacketsParser first, the payload rebuilt from all packets of the group, then the dispatch on the first packet's
+   PID (CAT / isPSIPayload / isPESPayload on the rebuilt payload).  parse_data is that regenerated function, for every
+   world, every bytesPool.get returning a slice of the requested length, and the unit parsers the model's dparsers
+   record is built from (psi_parse, to_data, pes_parse arbitrary; Model/DemuxFull.v's full_parsers is, by
+   definition, parsers_of parse_psi_data_bytes psi_to_data parse_pes_data_bytes).  Scoping: a failing
+   PacketsParser is reported with the generic code by the model whatever it wraps; the statement is for parsers whose
+   errors carry the generic code. *)
+Require Import Proofs.DemuxGenEqParse.
+
+Theorem C02_parse_data_is_source : forall (W : Type) (get : W -> Z -> outcome (list Z * W)),
+  (forall w n, 0 <= n -> exists bs w', get w n = Done (bs, w') /\ Z.of_nat (length bs) = n) ->
+  forall (err_of : Z -> gerr), (forall c, code_x (err_of c) = norm c) ->
+  forall psi_parse to_data pes_parse ps gprs pm w, generic_errors gprs ->
+  match parseData W get (psi_m W err_of psi_parse) (to_data_m W to_data) (pes_m W err_of pes_parse)
+                  ps gprs (pm_mem pm) w with
+  | Done (ds, None, _) => parse_data (parsers_of psi_parse to_data pes_parse) (option_map unembed_parser gprs) pm ps = Ok ds
+  | Done (_, Some e, _) =>
+      exists c, parse_data (parsers_of psi_parse to_data pes_parse) (option_map unembed_parser gprs) pm ps = Err c /\
+                code_x e = norm c
+  | Panicked | OutOfFuel =>
+      parse_data (parsers_of psi_parse to_data pes_parse) (option_map unembed_parser gprs) pm ps = Panic
+  end.
+Proof. exact parse_data_is_generated. Qed.
+Print Assumptions C02_parse_data_is_source.
